@@ -229,9 +229,17 @@ static void prop_gs(Tape &t, Ctx &c) {
 // ------------------------------------------------------------------ hierarchies
 struct Hier { std::vector<Csr<double>> A, P, R; std::vector<std::vector<double>> app; };
 
-static Hier build(const Csr<double> &A, const boost::property_tree::ptree &prm, const std::vector<std::vector<double>> &rhs) {
+static Hier build(const Csr<double> &A, const boost::property_tree::ptree &prm_, const std::vector<std::vector<double>> &rhs,
+                  const std::vector<double> &ns = std::vector<double>(), int ns_cols = 0) {
     Hier h;
     auto tup = std::make_tuple(static_cast<size_t>(A.n), A.ptr, A.col, A.val);
+    boost::property_tree::ptree prm = prm_;
+    std::vector<double> nsc = ns; // the coarsening overwrites the user's near-null-space array: a fresh copy per build
+    if (ns_cols) {
+        prm.put("coarsening.nullspace.cols", ns_cols);
+        prm.put("coarsening.nullspace.rows", static_cast<int>(A.n));
+        prm.put("coarsening.nullspace.B", static_cast<void *>(nsc.data()));
+    }
     AMG amg(tup, prm);
     for (const auto &l : acc::levels(amg)) {
         if (l.A) h.A.push_back(from_crs(*l.A));
@@ -261,13 +269,24 @@ static void prop_hierarchy(Tape &t, Ctx &c) {
     if (t.b()) prm.put("direct_coarse", false);
     if (ci == 1 && t.b()) prm.put("coarsening.estimate_spectral_radius", true); // Gershgorin (power_iters = 0): max-reduction, order independent
     std::vector<std::vector<double>> rhs = {gen_vec(t, g.n, 0), gen_vec(t, g.n, 2)};
-    c.desc << "hierarchy " << COARSE[ci] << "+" << RELAX[ri] << " " << g.family << " n=" << g.n << " nnz=" << A.nnz() << " coarse_enough=" << ce;
+    // near-null-space with 2..3 vectors (read last: saved cases keep their meaning): the tentative prolongation runs one dense QR
+    // per aggregate with a QR object per thread, so which thread handled the previous aggregate must not matter. The depth is
+    // capped there (a step need not shrink the level, listed finding F-nullspace-no-shrink of C03).
+    int ns_cols = 0; std::vector<double> ns;
+    if (ci != 2 && t.chance(1, 3)) {
+        ns_cols = static_cast<int>(t.u(2, 3));
+        ns.resize(static_cast<size_t>(g.n) * ns_cols);
+        for (int i = 0; i < g.n; ++i) for (int v = 0; v < ns_cols; ++v) ns[i * ns_cols + v] = v == 0 ? 1.0 : t.uni(-1, 1) + (v == 1 ? i : 0.1 * i * i) / std::max(1, g.n);
+        prm.put("max_levels", static_cast<int>(t.u(2, 4)));
+        c.label("nullspace");
+    }
+    c.desc << "hierarchy " << COARSE[ci] << "+" << RELAX[ri] << " " << g.family << " n=" << g.n << " nnz=" << A.nnz() << " coarse_enough=" << ce << " ns_cols=" << ns_cols;
     c.label(std::string("c:") + COARSE[ci]); c.label(std::string("r:") + RELAX[ri]);
     // emin accumulates omega in a critical section and ILU switches serial<->level-scheduled at 4 threads: rounding allowed there
     bool setup_bitwise = ci != 3;
     bool apply_bitwise = setup_bitwise && ri != 4;
     std::vector<Hier> H(NTH);
-    for (int qq = 0; qq < NHQ; ++qq) { int q = HQ[qq]; set_threads(TH[q]); H[q] = build(A, prm, rhs); }
+    for (int qq = 0; qq < NHQ; ++qq) { int q = HQ[qq]; set_threads(TH[q]); H[q] = build(A, prm, rhs, ns, ns_cols); }
     set_threads(c.threads);
     size_t nl = H[0].A.size();
     c.nontrivial = nl >= 2;
